@@ -7,6 +7,8 @@ def run(ctx):
     ctx.rule = ("TLC enumerates helper calls (string helpers over {a,b,.} (+*,?) up to length 3/4, isInNet over octet "
                 "triples, isInNetEx CIDRs, sortIpAddressList permutations, DNS stubs), decision-tree scripts and result "
                 "lists with expected values; each runs through the real goja-based ProxyResolver / Proxies parser. "
+                "PacDns.tla: sequences of DNS-backed helpers of both address families on the same name within one evaluation "
+                "(dual-stack, IPv6-only, IPv6-first names) return what each returns alone (mutant: lookups cached by name). "
                 "Entry-point/result-type rules are a fixed table; the pool is hammered by 32 goroutines with a script "
                 "keeping VM-global state, one evaluation in five failing (throw / non-string result) (PacPool model: bag of idle VMs, EvalFail). Non-trivial = helper result true/non-zero, script with >1 "
                 "distinct outcome, result list with >1 entry or an error.")
@@ -73,6 +75,24 @@ def run(ctx):
         else:
             ctx.traces_ok += 1
     ctx.sample({"result": out[len(out) // 2]})
+
+    # DNS-backed helpers of both address families called within one evaluation
+    ctx.mc("PacDns.tla", "MC_PacDns.cfg")
+    ok, _, _, _ = ctx.mc("PacDns.tla", "MC_PacDns_cache.cfg", expect_ok=False)
+    if ok:
+        raise vlib.Infra("PacDns mutant CacheByName not detected by the model")
+    recs, _, _, _ = ctx.gen("PacDns.tla", "GEN_PacDns_%s.cfg" % sfx)
+    out = ctx.run_vh(binp, ["c14-dns"], cases=recs)
+    if len(out) != len(recs):
+        raise vlib.Infra("c14-dns: %d results for %d cases" % (len(out), len(recs)))
+    for r in out:
+        ctx.evaluations += 1
+        ctx.nontrivial.add("dns:" + vlib.digest(r["calls"]))
+        if not r["ok"]:
+            ctx.violation("C14:dns-helpers-in-one-evaluation:%s" % "+".join(sorted(set(c["fn"] for c in r["calls"]))), r)
+        else:
+            ctx.traces_ok += 1
+    ctx.sample({"dns_calls": out[len(out) // 2]})
 
     out = ctx.run_vh(binp, ["c14-pool", "--arg", "ms=%d" % (1500 if q else 15000)])
     out, crashed = ctx.nocrash(out, "C14:pool:crash")
